@@ -111,6 +111,7 @@ class Ctx:
     def validate_trace(self, module, events, what="", consts="", timeout=3600, count=True, init="Init", nxt="Next"):
         """Trace validation (code -> spec): events are dicts with a kind `k`; ids are assigned here.
         Returns {id: [failing clause names]} (without DRIFT) and the list of drifting ids."""
+        events[:] = [_sanitise(e) for e in events]
         for i, e in enumerate(events):
             e["id"] = i + 1
         text = "".join(json.dumps(e, separators=(",", ":")) + "\n" for e in events)
@@ -209,6 +210,49 @@ class Ctx:
         return 0
 
 
+BIG = 2000000000      # TLC integers are 32 bit and the Json module mangles larger ones: out-of-range results are clamped to +-BIG,
+                      # which no oracle value equals (the specifications keep their numbers far below it)
+
+
+def to_int(x):
+    """int(round(x)) for a result of the code under test; non-finite or huge values become +-BIG instead of raising in the harness"""
+    try:
+        x = float(x)
+    except Exception:
+        return -BIG
+    if x != x:
+        return -BIG
+    if x >= BIG:
+        return BIG
+    if x <= -BIG:
+        return -BIG
+    return int(round(x))
+
+
+def _sanitise(o):
+    if isinstance(o, bool) or o is None or isinstance(o, str):
+        return o
+    if isinstance(o, int):
+        return max(-BIG, min(BIG, o))
+    if isinstance(o, float):
+        return o if (o == o and abs(o) < 1e300) else float(-BIG)
+    if isinstance(o, dict):
+        return {k: _sanitise(v) for k, v in o.items()}
+    if isinstance(o, (list, tuple)):
+        return [_sanitise(v) for v in o]
+    try:
+        import numpy as _np
+        if isinstance(o, _np.integer):
+            return max(-BIG, min(BIG, int(o)))
+        if isinstance(o, _np.floating):
+            return _sanitise(float(o))
+        if isinstance(o, _np.bool_):
+            return bool(o)
+    except Exception:
+        pass
+    return o
+
+
 def _short(s, n=300):
     s = str(s).replace("\n", " | ")
     return s if len(s) <= n else s[:n] + "..."
@@ -229,7 +273,20 @@ def main(pid, fn, level="model_checking"):
     except Machinery as e:
         print("MACHINERY-FAILURE property=%s: %s" % (pid, e))
         return 2
-    except Exception:
+    except Exception as ex:
+        # an exception that escapes a driver: if it was raised INSIDE the code under test (innermost frame in the repository tree) on an
+        # input the driver considers legal, the property is broken there (the drivers catch the exceptions they expect: refusals);
+        # anything raised by the harness itself is a machinery failure
+        tb = traceback.extract_tb(ex.__traceback__)
+        inner = tb[-1].filename if tb else ""
+        repo = os.path.realpath(os.environ.get("VERIF_REPO", "/repo"))
+        if os.path.realpath(inner).startswith(repo + os.sep) and os.path.realpath(inner).find(os.sep + "verif" + os.sep) < 0:
+            where = [f for f in tb if "/harness/checks/" in f.filename]
+            ctx.violation({"kind": "code-raises", "error": type(ex).__name__, "at": os.path.relpath(os.path.realpath(inner), repo)},
+                          "%s: %s raised in %s:%d (%s) while the driver ran line %s" % (
+                              type(ex).__name__, ex, os.path.relpath(os.path.realpath(inner), repo), tb[-1].lineno, tb[-1].name,
+                              where[-1].lineno if where else "?"), {"traceback": traceback.format_exc()[-3000:]})
+            return ctx.finish()
         print("MACHINERY-FAILURE property=%s: unexpected exception in the harness" % pid)
         traceback.print_exc()
         return 2
